@@ -70,6 +70,9 @@ class Report:
     def finish(self):
         c = self.cov
         c['distinct_nontrivial'] = len(self._distinct)
+        c.setdefault('rule', 'one case per obligation key (formula / bound / presentation / fork); it counts as non-trivial when the run reports it so '
+                             '(for model-checking obligations: the decided result vector is not constant over the structures of the bound, i.e. both '
+                             'polarities of a result bit are satisfiable); keys are de-duplicated')
         c['functions_encoded'] = sorted(self.encoded)
         c['solver_time_s'] = round(c['solver_time_s'], 3)
         c['known_findings_reported'] = list(self.known)
